@@ -108,6 +108,26 @@ class Rec:
         }
 
 
+def with_interpreter_options(shards, key=None, limit=3):
+    """The shard list plus copies of a few of its shards (the first of every distinct value of `key`, or simply the
+    first ones) that run in one-off interpreters started with other options: -O, -OO (asserts and docstrings stripped)
+    and -W error (every warning an exception)."""
+    picked, seen = [], set()
+    for s in shards:
+        if not isinstance(s, dict) or s.get("_pyflags"):
+            continue
+        k = s.get(key) if key else len(picked)
+        k = repr(k)
+        if k in seen:
+            continue
+        seen.add(k)
+        picked.append(s)
+        if len(picked) >= limit:
+            break
+    flags = (["-O"], ["-OO"], ["-W", "error"])
+    return list(shards) + [dict(s, _pyflags=flags[i % 3]) for i, s in enumerate(picked)]
+
+
 # --------------------------------------------------------------------------- worker
 
 
